@@ -374,6 +374,8 @@ impl ProofPool {
         }
         self.verifies_in_window += 1;
 
+        #[cfg(feature = "verif-hooks")]
+        VERIF_VERIFY_CALLS.fetch_add(1, std::sync::atomic::Ordering::Relaxed);
         self.verifier.verify(proof.clone()).map_err(|e| {
             anyhow!(
                 "refusing to queue invalid private-batch proof: verification failed: {}",
@@ -640,6 +642,76 @@ impl ProofPool {
             .fold(0u64, |acc, sum| acc.saturating_add(sum));
 
         Ok((key, nullifiers, volume))
+    }
+}
+
+/// Verification hooks (off by default): a verification-call counter and a
+/// read-only copy of the pool's internal state for external invariant monitors.
+#[cfg(feature = "verif-hooks")]
+pub static VERIF_VERIFY_CALLS: std::sync::atomic::AtomicUsize =
+    std::sync::atomic::AtomicUsize::new(0);
+
+#[cfg(feature = "verif-hooks")]
+#[derive(Debug, Clone)]
+pub struct VerifPooledProofView {
+    pub public_inputs: Vec<u64>,
+    pub nullifiers: Vec<BytesDigest>,
+    pub volume: u64,
+    pub admitted_at: Instant,
+}
+
+#[cfg(feature = "verif-hooks")]
+#[derive(Debug, Clone)]
+pub struct VerifBucketView {
+    pub key: BatchKey,
+    pub proofs: Vec<VerifPooledProofView>,
+    pub last_snapshot_at: Option<Instant>,
+}
+
+#[cfg(feature = "verif-hooks")]
+#[derive(Debug, Clone)]
+pub struct VerifPoolView {
+    pub buckets: Vec<VerifBucketView>,
+    pub nullifier_index: Vec<(BytesDigest, BatchKey)>,
+    pub verify_window_started: Instant,
+    pub verifies_in_window: usize,
+}
+
+#[cfg(feature = "verif-hooks")]
+impl ProofPool {
+    pub fn verif_view(&self) -> VerifPoolView {
+        VerifPoolView {
+            buckets: self
+                .buckets
+                .iter()
+                .map(|(key, bucket)| VerifBucketView {
+                    key: *key,
+                    proofs: bucket
+                        .proofs
+                        .iter()
+                        .map(|q| VerifPooledProofView {
+                            public_inputs: q
+                                .proof
+                                .public_inputs
+                                .iter()
+                                .map(|f| f.to_canonical_u64())
+                                .collect(),
+                            nullifiers: q.nullifiers.clone(),
+                            volume: q.volume,
+                            admitted_at: q.admitted_at,
+                        })
+                        .collect(),
+                    last_snapshot_at: bucket.last_snapshot_at,
+                })
+                .collect(),
+            nullifier_index: self
+                .nullifier_index
+                .iter()
+                .map(|(n, k)| (*n, *k))
+                .collect(),
+            verify_window_started: self.verify_window_started,
+            verifies_in_window: self.verifies_in_window,
+        }
     }
 }
 
